@@ -14,7 +14,7 @@ Extraction "pset.ml"
   unconstrain unconstrain_set remove_higher project_dims relax rename_sys concatenate map_dims expand
   q_is_empty q_is_universe q_contains q_is_disjoint q_equals empty_sys false_sys
   poly_dom Omega Collapse CollapseN AddDisjunct Lub Meet PairwiseApply Entails IsBottom IsTop MapAssign
-  PairwiseReduce CheckReduced never mk_ps seq reduced is_omega_reduced add_end strictly_contains_ps StrictlyContains q_strictly_contains
+  PairwiseReduce CheckReduced never mk_ps seq reduced is_omega_reduced add_end strictly_contains_ps StrictlyContains q_strictly_contains concatenate_ps always
   union_incl unions_incl unions_equiv unions_disjoint is_difference
   run_cow run_values read_cow read_val step stepv init initv count hs heap refs pset.
 Cd "../../coq".
